@@ -87,6 +87,8 @@ type Config struct {
 	MaxUpload  int64
 	MaxMemory  int64
 	KeepAlive  time.Duration
+	// ResponseHeaders of the HTTP transports that take them (nil = none)
+	ResponseHeaders map[string][]string
 }
 
 var AllTransports = []string{"options", "get", "post", "multipart", "urlencoded", "graphql", "sse", "multipartmixed"}
@@ -103,15 +105,15 @@ func New(s *proj.Server, cfg Config) *handler.Server {
 		case "options":
 			h.AddTransport(transport.Options{})
 		case "get":
-			h.AddTransport(transport.GET{})
+			h.AddTransport(transport.GET{ResponseHeaders: cfg.ResponseHeaders})
 		case "post":
-			h.AddTransport(transport.POST{})
+			h.AddTransport(transport.POST{ResponseHeaders: cfg.ResponseHeaders})
 		case "multipart":
-			h.AddTransport(transport.MultipartForm{MaxUploadSize: cfg.MaxUpload, MaxMemory: cfg.MaxMemory})
+			h.AddTransport(transport.MultipartForm{MaxUploadSize: cfg.MaxUpload, MaxMemory: cfg.MaxMemory, ResponseHeaders: cfg.ResponseHeaders})
 		case "urlencoded":
-			h.AddTransport(transport.UrlEncodedForm{})
+			h.AddTransport(transport.UrlEncodedForm{ResponseHeaders: cfg.ResponseHeaders})
 		case "graphql":
-			h.AddTransport(transport.GRAPHQL{})
+			h.AddTransport(transport.GRAPHQL{ResponseHeaders: cfg.ResponseHeaders})
 		case "sse":
 			h.AddTransport(transport.SSE{KeepAlivePingInterval: cfg.KeepAlive})
 		case "multipartmixed":
